@@ -1,0 +1,49 @@
+//go:build verif
+
+package core
+
+import "sync/atomic"
+
+// This file is a test seam for the external verification harness (/verif).
+// It is compiled only with `-tags verif` and adds no behaviour to normal builds.
+
+// VerifPersist performs one synchronous flush of the write cache to the
+// underlying persistent store, exactly as the 1-second timer of Run does
+// (bc.persist), but at a moment chosen by the caller. It takes addLock, so
+// the flush happens at a block boundary (no block addition is in progress).
+// It returns the number of keys that were waiting in the write cache when the
+// flush started (0 means there was nothing to flush).
+func (bc *Blockchain) VerifPersist() (int, error) {
+	bc.addLock.Lock()
+	defer bc.addLock.Unlock()
+	n := bc.dao.Store.Len()
+	_, err := bc.persist()
+	return n, err
+}
+
+// VerifPersistGC does what one tick of the Run loop does: flush the write
+// cache and then, when RemoveUntraceableBlocks is on, give the garbage
+// collector its chance (tryRunGC with the previously persisted height).
+func (bc *Blockchain) VerifPersistGC() (int, error) {
+	bc.addLock.Lock()
+	defer bc.addLock.Unlock()
+	var oldPersisted uint32
+	if bc.config.RemoveUntraceableBlocks {
+		oldPersisted = atomic.LoadUint32(&bc.persistedHeight)
+	}
+	n := bc.dao.Store.Len()
+	_, err := bc.persist()
+	if err != nil {
+		return n, err
+	}
+	if bc.config.RemoveUntraceableBlocks {
+		bc.tryRunGC(oldPersisted)
+	}
+	return n, nil
+}
+
+// VerifPersistedHeight returns the height of the last block known to be in
+// the persistent store (read-only accessor).
+func (bc *Blockchain) VerifPersistedHeight() uint32 {
+	return atomic.LoadUint32(&bc.persistedHeight)
+}
